@@ -31,6 +31,11 @@ func c09FormFields(r *rep.Reporter) {
 		{"crlf-in-user-metadata", []field{{"X-Amz-Meta-Inj", "v\r\nInjected: yes"}}},
 		{"bell-in-amz-header", []field{{"X-Amz-Storage-Class", "STAN\x07DARD"}}},
 		{"nul-in-field-name", []field{{"X-Amz-Meta-a\x00b", "v"}}},
+		{"nul-in-field-name-rfc2231", []field{{"rfc2231:X-Amz-Meta-A\x00B", "v"}}},
+		{"newline-in-field-name-rfc2231", []field{{"rfc2231:X-Amz-Meta-A\nB", "v"}}},
+		{"space-in-field-name-rfc2231", []field{{"rfc2231:X-Amz-Meta-A B", "v"}}},
+		{"colon-in-field-name-rfc2231", []field{{"rfc2231:X-Amz-Meta-A:B", "v"}}},
+		{"high-byte-in-field-name-rfc2231", []field{{"rfc2231:X-Amz-Meta-\xe9", "v"}}},
 		{"high-bytes", []field{{"X-Amz-Meta-Hi", "caf\xe9 \xff"}}},
 		{"huge-value", []field{{"X-Amz-Meta-Big", strings.Repeat("m", 5000)}}},
 		{"two-values", []field{{"X-Amz-Meta-Two", "one"}, {"X-Amz-Meta-Two", "tw\x02o"}}},
@@ -74,6 +79,18 @@ func c09FormFields(r *rep.Reporter) {
 				var buf bytes.Buffer
 				mw := multipart.NewWriter(&buf)
 				part := func(name string) textproto.MIMEHeader {
+					if strings.HasPrefix(name, "rfc2231:") {
+						// the extended parameter syntax carries any byte, percent-encoded
+						var sb strings.Builder
+						for _, c := range []byte(strings.TrimPrefix(name, "rfc2231:")) {
+							if c >= 'a' && c <= 'z' || c >= 'A' && c <= 'Z' || c >= '0' && c <= '9' || c == '-' {
+								sb.WriteByte(c)
+							} else {
+								fmt.Fprintf(&sb, "%%%02X", c)
+							}
+						}
+						return textproto.MIMEHeader{"Content-Disposition": {"form-data; name*=utf-8''" + sb.String()}}
+					}
 					// (the quoting of mime/multipart: backslash and double quote only)
 					return textproto.MIMEHeader{"Content-Disposition": {fmt.Sprintf(`form-data; name="%s"`, strings.NewReplacer("\\", "\\\\", `"`, "\\\"").Replace(name))}}
 				}
